@@ -263,6 +263,41 @@ fn decode(lang: LangId, ch: &[u16]) -> Option<PlantCase> {
             }
         }
     }
+    // symmetry acquired through a merge, after the instance was planted: another class with the same slots is made
+    // symmetric and then united with a leaf of the instance (the leaf's class inherits the symmetry); the planted
+    // leaf may have its arguments swapped, so that the instance is present only through the inherited symmetry
+    if lang == LangId::Core && src.pick(3) == 0 {
+        let subs = planted.subterms();
+        let cand: Vec<usize> = subs
+            .iter()
+            .enumerate()
+            .filter(|(_, st)| (st.op == "f2" || st.op == "g3") && st.fv().len() == st.args.len())
+            .map(|(i, _)| i)
+            .collect();
+        if !cand.is_empty() {
+            let i = cand[src.pick(cand.len())];
+            let leaf = subs[i].clone();
+            let names: Vec<Name> = leaf.args.iter().filter_map(|a| if let Arg::S(n) = a { Some(*n) } else { None }).collect();
+            let mut swapped = names.clone();
+            swapped.swap(0, 1);
+            let other = |ns: &[Name]| -> Tm {
+                if ns.len() == 2 {
+                    Tm::node("p", vec![k(Tm::leaf("v", &[ns[0]])), k(Tm::leaf("v", &[ns[1]]))])
+                } else {
+                    Tm::leaf("h3", ns)
+                }
+            };
+            pre_unions.push((other(&names), other(&swapped)));
+            if src.pick(2) == 0 {
+                pre_unions.push((other(&names), leaf.clone()));
+            } else {
+                pre_unions.push((leaf.clone(), other(&names)));
+            }
+            if src.pick(2) == 0 {
+                planted = replace_nth(&planted, i, &Tm::leaf(&leaf.op, &swapped));
+            }
+        }
+    }
     let inserted = in_ctx(planted, &mut src);
     let second_rule = if src.pick(3) == 0 {
         let mut nb: Name = 30;
@@ -345,6 +380,9 @@ fn run_l<L: Language + 'static>(c: &PlantCase, obs: &mut Obs) -> Result<(), Stri
     }
     if c.inst_l != c.inserted && !c.pre_unions.is_empty() {
         obs.label("present-only-up-to-equality");
+    }
+    if c.pre_unions.iter().any(|(a, b)| a.op == b.op && a != b && (a.op == "h3" || a.op == "p")) {
+        obs.label("symmetry-acquired-by-merge");
     }
     if c.second_rule.is_some() {
         obs.label("two-rules");
